@@ -270,7 +270,7 @@ Proof. intros. rewrite <- (hst_of_mk B tip ops y ip fin). apply stopsL_now. assu
 
 Lemma stopsL_mk_eq : forall orc prog B tip ops y ip fin x s, s = mk B tip ops y ip fin ->
   step_ng orc prog s = x -> stopsL orc prog s x (y_m y).
-Proof. intros; subst s. apply stopsL_mk. reflexivity. Qed.
+Proof. intros orc prog B tip ops y ip fin x s E H. subst s. apply stopsL_mk. exact H. Qed.
 
 Lemma mk_m_eta : forall B tip ops y ip fin,
   mk B tip ops (mkY (y_m y) (y_loc y) (y_funs y)) ip fin = mk B tip ops y ip fin.
